@@ -358,13 +358,7 @@ OBJ = ('bqmobj', 'rngobj', 'objview')
 # Classes on which the UNCHANGED dimod violates the property (a rejected call leaves variables behind); each has a
 # candidate repair under patches/.  They are generated and judged only with VERIF_C20_PENDING=1 until the repair is in
 # /repo (then delete the entry: the class becomes part of every run).  (site prefix, object kinds or None = all, patch)
-PENDING = [
-    ('BQM.add_variable bias', ('view', 'rngview'), 'patches/vartypeview-bias-before-variable.diff'),
-    ('BQM.set_linear bias, new variable', ('view', 'rngview'), 'patches/vartypeview-bias-before-variable.diff'),
-    ('BQM.set_quadratic bias', ('view', 'rngview'), 'patches/vartypeview-bias-before-variable.diff'),
-    ('BQM.add_linear_inequality_constraint lagrange_multiplier', None, 'patches/inequality-validate-before-slack.diff'),
-    ('BQM.add_linear_inequality_constraint first term bias', None, 'patches/inequality-validate-before-slack.diff'),
-]
+PENDING = []   # emptied: both repairs are in /repo (ca17f4d, 9966cf4); the five classes run every time
 
 
 def pending(kind, site):
